@@ -29,9 +29,32 @@ pub const OTHER_TEXTS: [&str; 3] = ["foo: nop\n", "foo: nop\nbar: rts\n", "foo: 
 pub const STRAY_TEXTS: [&str; 1] = ["lda #1\nzz: nop\n"];
 pub const FILES: [&str; 3] = ["main.asm", "other.asm", "stray.asm"];
 
+pub static TYPING_LADDER: std::sync::atomic::AtomicBool = std::sync::atomic::AtomicBool::new(false);
+
+/// Texts per file. With the typing ladder (thorough) main.asm additionally gets every prefix of the
+/// two-scope program that ends at a token boundary: the states an editor passes through while
+/// the program is typed in, most of them syntactically broken.
 fn texts_of(file: usize) -> &'static [&'static str] {
+    static MAIN: once_cell::sync::OnceCell<Vec<&'static str>> = once_cell::sync::OnceCell::new();
     match file {
-        0 => &MAIN_TEXTS,
+        0 => MAIN.get_or_init(|| {
+            let mut v: Vec<&'static str> = MAIN_TEXTS.to_vec();
+            if TYPING_LADDER.load(std::sync::atomic::Ordering::SeqCst) {
+                let full: &'static str = MAIN_TEXTS[4];
+                let mut prev_word = false;
+                for (i, ch) in full.char_indices() {
+                    let word = ch.is_alphanumeric() || ch == '_';
+                    if i > 0 && (word != prev_word || !word) && !ch.is_whitespace() {
+                        let p: &'static str = &full[..i];
+                        if !v.contains(&p) {
+                            v.push(p);
+                        }
+                    }
+                    prev_word = word;
+                }
+            }
+            v
+        }),
         1 => &OTHER_TEXTS,
         _ => &STRAY_TEXTS,
     }
@@ -448,7 +471,7 @@ fn enabled_events(buffers: &Buffers, thorough: bool) -> Vec<Event> {
     }
     // renames at identifier occurrences of the open main buffer
     if let Some(t) = buffers[0] {
-        let text = MAIN_TEXTS[t];
+        let text = texts_of(0)[t];
         let mut n = 0;
         for (l, c, class) in positions(text, false) {
             if class != "token-start" {
@@ -489,6 +512,8 @@ pub fn run(ctx: &Ctx, replay: Option<&Value>) -> i32 {
         return 0;
     }
     let _ = crate::lspdrv::root();
+    TYPING_LADDER.store(thorough, std::sync::atomic::Ordering::SeqCst);
+    ctx.set("main_texts", json!(texts_of(0).len()));
     let max_depth = if thorough { 64 } else { 3 };
     let full = thorough;
 
@@ -623,7 +648,7 @@ pub fn run(ctx: &Ctx, replay: Option<&Value>) -> i32 {
         closure,
         &[
             "stdio framing is exercised only by the conformance replays against the real `mos lsp` process",
-            "texts are a fixed ladder of 10+3+1 buffers; positions are byte columns as the server interprets them",
+            "texts are a fixed ladder of 10+3+1 buffers (thorough: plus every token-boundary prefix of the two-scope program); positions are byte columns as the server interprets them",
             "quick: depth bound 3 and reduced battery; thorough: search to closure",
         ],
     )
